@@ -119,6 +119,10 @@ def build(d, before_top=None):
             cells = list(reversed(cells))
         elif o == "frozenset":
             cells = frozenset(cells)
+        elif o == "set":
+            cells = set(cells)  # the caller's own mutable set: the pattern must not depend on it
+        elif o == "generator":
+            cells = (c for c in list(cells))
         elif o == "dup":
             cells = cells + cells[::-1]
         elif o == "sorted":
@@ -227,7 +231,7 @@ def _twin(rng, d):
     if t == "perm":
         return dict(d, route=rng.choice(["fresh", "list", "std", "str"]))
     if t == "mesh":
-        return dict(d, order=rng.choice(["reversed", "frozenset", "dup", "sorted"]))
+        return dict(d, order=rng.choice(["reversed", "frozenset", "dup", "sorted", "set", "generator"]))
     if t in ("biv", "vinc", "cov"):
         n = len(d["perm"])
         idx, val = d.get("idx", []), d.get("val", [])
@@ -458,7 +462,7 @@ def gen_case(rng, tier):
                 g = rng.choice(["meshlike", "meshlike", "perm"])
                 if g in groups:
                     i = pick(g)
-                    how = rng.choice(["rr", "cc", "ii", "rot4", "shade", "shade", "shade_same"] if g == "meshlike" else ["rr", "cc", "ii", "rot4"])
+                    how = rng.choice(["rr", "cc", "ii", "rot4", "shade", "shade", "shade_same", "add_point", "add_point", "sub_mesh"] if g == "meshlike" else ["rr", "cc", "ii", "rot4"])
                     k = len(pool[i]["perm"])
                     cells = [[rng.randint(0, k), rng.randint(0, k)] for _ in range(rng.randint(1, 3))]
                     ops.append({"op": "derive", "obj": i, "how": how, "cells": cells})
@@ -809,6 +813,24 @@ def execute(case):
                 elif how == "shade_same":
                     cells = sorted(vals[i][2])[:2]
                     new = src.shade(*cells) if cells else src.shade()
+                elif how == "add_point":
+                    # a point (or an increasing / decreasing pair) inserted into a cell that is not
+                    # shaded; what the result should be is another property's business, here it
+                    # only has to be a well-behaved value: judged against its own reconstruction
+                    free = [tuple(c) for c in op["cells"] if tuple(c) not in vals[i][2]]
+                    if not free or len(vals[i][1]) >= 6:
+                        continue
+                    variant = (op["cells"][0][0] + len(op["cells"])) % 7
+                    if variant < 5:
+                        new = src.add_point(free[0], variant)
+                    elif variant == 5:
+                        new = src.add_increase(free[0])
+                    else:
+                        new = src.add_decrease(free[0])
+                elif how == "sub_mesh":
+                    k = len(vals[i][1])
+                    idx = sorted({c[0] % k for c in op["cells"]}) if k else []
+                    new = src.sub_mesh_pattern(idx)
                 else:
                     new = src.shade(*[tuple(c) for c in op["cells"]])
             except AttributeError:
@@ -818,6 +840,12 @@ def execute(case):
                 break
             if op["how"] == "shade":
                 want = ("mesh", vals[i][1], frozenset(vals[i][2] | {tuple(c) for c in op["cells"]}))
+            elif op["how"] in ("add_point", "sub_mesh"):
+                try:
+                    want = ("mesh", tuple(int(v) for v in new.pattern), frozenset((int(a), int(b)) for a, b in new.shading))
+                except Exception as exc:  # pylint: disable=broad-except
+                    hist.violate("exception", {"op": "derive:" + op["how"], "type": type(exc).__name__}, f"result of {op['how']} on {descs[i]} cannot be read back: {exc}")
+                    break
             else:
                 want = vals[i]
             if want[0] == "perm":
